@@ -21,6 +21,14 @@ type Options struct {
 // original: every reader starts from its own copy of the defaults.
 func (o *Options) clone() *Options {
 	c := *o
+	if o.UnserializeOptions != nil {
+		uo := *o.UnserializeOptions
+		c.UnserializeOptions = &uo
+	}
+	if o.RetrieveOptions != nil {
+		ro := *o.RetrieveOptions
+		c.RetrieveOptions = &ro
+	}
 	c.formatOptions = make(map[string]interface{}, len(o.formatOptions))
 	for k, v := range o.formatOptions {
 		c.formatOptions[k] = v
